@@ -74,7 +74,7 @@ def decorate(cfg, rnd):
 
 def natural_len(segs_of_bank):
     """Span of literal-start writable segments (used only to CHOOSE interesting bank sizes, never to judge)."""
-    spans = [(s["start"]["v"], s["start"]["v"] + len(s["bytes"])) for s in segs_of_bank if s["write"] and s["start"]["k"] == "lit"]
+    spans = [(s["start"]["v"], s["start"]["v"] + len(s["bytes"])) for s in segs_of_bank if s["write"] and s["bytes"] and s["start"]["k"] == "lit"]
     if not spans:
         return 0
     return max(h for _, h in spans) - min(l for l, _ in spans)
@@ -115,6 +115,10 @@ def random_cfg(rnd, faults):
                 ref = ons("zz")
         users.append({"name": "s%d" % i, "start": lit(base + rnd.randrange(0, 21)), "pc": OFF, "write": rnd.random() >= 0.15, "bank": ref,
                       "origin": "user", "bytes": seg_bytes(i, rnd.randrange(1, 6))})
+    # some segments stay without bytes (defined, never written to): they write no address
+    for u in users:
+        if rnd.random() < 0.07:
+            u["bytes"] = []
     # start dependencies: along a random ranking, so that they are acyclic; forward references (later-defined target) included
     rank = list(range(ns))
     rnd.shuffle(rank)
@@ -130,6 +134,8 @@ def random_cfg(rnd, faults):
             pos = rnd.randrange(pos, len(segs) + 1)
             segs.insert(pos, {"name": b["name"], "start": lit(base + rnd.randrange(0, 21)), "pc": OFF, "write": True, "bank": ons(b["name"]),
                               "origin": "bank", "bytes": seg_bytes(7 + j, rnd.randrange(1, 4))})
+            if rnd.random() < 0.25:
+                segs[pos].update(start=lit(0x2000), bytes=[])   # created but never used: it sits at the default start $2000
             pos += 1
     # sizes relative to what the bank will hold: none, exact, larger, smaller
     for b in banks:
@@ -250,8 +256,16 @@ def render(cfg, rnd):
             lines.append(_seg_def(s, rnd))
     emit_banks(len(banks))
     blocks = []
+    bad_size = {b["name"] for b in banks if b["size"]["on"] and not 0 <= b["size"]["v"] <= 65536}
     for s in cfg["segs"]:
         bs = s["bytes"]
+        if not bs:
+            # a segment without bytes: no block at all, or a block that emits nothing (only where its definition cannot be refused)
+            defined = (s["origin"] == "user" and s["start"]["k"] == "lit" and 0 <= s["start"]["v"] <= 65535 and not (s["pc"]["on"] and not 0 <= s["pc"]["v"] <= 65535)) \
+                or (s["origin"] == "bank" and s["name"] not in bad_size)
+            if defined and s["origin"] != "default" and rnd.random() < 0.5:
+                blocks.append(('.segment "%s" { %s}' % (s["name"], rnd.choice(["", "* = $%04x " % rnd.randrange(0x100, 0xff00)])), s["name"]))
+            continue
         if s["origin"] == "default":
             blocks.append("* = $%04x\n%s" % (s["start"]["v"], _bytes(bs)))
             continue
